@@ -25,11 +25,11 @@ INTS_HUGE = [1700000000, 1700000001, -1700000000, 2 ** 31 - 1, -(2 ** 31 - 1), 2
 FLOATS_WIDE = [1000000.5, -0.125, 1024.0, 7.875, -2.0, 10.0, 4.0, 100.0, 16777216.5, 134217000.0, -134217000.125, 3.0, 0.0, 1.0]
 STRS_WIDE = ["True", "TRUE", " true", "false ", "tRuE", "+3", "-0", "007", "1__0", "_1", "1_", " 1 2 ", "\t3", "3\r\n", "0x1F",
              "1e3", "a b", "ABC", "Ab", "aB", "value", "path", "type", "condition", "key", "index", "length", "dtype", "None",
-             "null", "aaaaaaaaaaaa", "\x1f5", " ", "abcd", "ba", "\x0b-7\x0c", "+ 3", "3 ", "33", "abcdefghijklmnopqrstuvwxyz_0123456789",
+             "null", "aaaaaaaaaaaa", "\x1f5", " ", "abcd", "ba", "\x0b-7\x0c", "+ 3", "3 ", "33", "abcdefghijklmnopqrstuvwxyz_0123456789", "{}", "{a}", "$x",
              # a few non-ASCII characters with behaviour of their own under lower() / casefold() / strip() / int()
              "fal\u017fe", "TRUE\u2003", "\u00a07", "\u0663", "1\uff13", "\u00c9", "\u00e9t\u00e9", "stra\u00dfe", "\u2003true"]
 LONG = "abcdefghijklmnopqrstuvwxyz_0123456789"      # longer than anything reprlib / textwrap / a column width leaves alone
-STR_KEYS_WIDE = [LONG, LONG, "", "value", "path", "type", "a.b", "ab ", "abc", "0", "None", "true", "B", "aa", "condition", "key", " a"]
+STR_KEYS_WIDE = [LONG, LONG, "{}", "{x}", "${LO}", "{0}", "", "value", "path", "type", "a.b", "ab ", "abc", "0", "None", "true", "B", "aa", "condition", "key", " a"]
 OTHER_KEYS_WIDE = [10, -2, 3, 2.5, 4, 0.5, 100, -1.5, 3.0]
 
 
@@ -40,7 +40,10 @@ PATHLIKE_EXTRA = [{"Path": ["a", 0]}, {"PATH.length": ["a"]}, {"b": 1, "Path": [
                   {"path\t": ["a"]}, {"Path.length.first": ["a", 0]},
                   # "path" followed by a word character, as an item / a value one level down and at the top
                   [{"pathname": 1}, 3], {"b": {"paths": [1]}}, {"x": {"path_1": "a", "c": 2}}, {"pathname": "out.txt"},
-                  [{"c": 1, "PathName": ["a"]}], {"k": {"path2": {"path": ["a"]}}}]
+                  [{"c": 1, "PathName": ["a"]}], {"k": {"path2": {"path": ["a"]}}},
+                  # a mapping ITEM of a list argument whose VALUE is a mapping with a path-like key (two levels down)
+                  [{"file": {"path": "/tmp/x"}}, 3], [{"b": {"path": [2]}}], [{"a": {"Path.length": ["a"]}}, "x"],
+                  [{"file": {"path": ["a"], "mode": "r"}}]]
 
 
 # COINCIDENCES: after a document has been generated, scalars and keys drawn for conditions / paths / arguments are,
@@ -472,6 +475,24 @@ def part_recipe(rng, node=None, simple=0.5):
             ks = [k for k in node if isinstance(k, int)] or [0]
             c = rng.choice([L("index", "equal_to", rng.choice(ks)), L("index", "in_", ks[:2] + [0]), L("index", "less_than", 3)])
         return {"rk": "mol", "key": None, "index": None, "value": None, "cond": c, "label": None}
+    if isinstance(node, (list, dict)) and node and rng.random() < 0.04:
+        # a map-or-list part with an index (key) condition AND a generic combination that holds a key (index) condition:
+        # on a list (mapping) the two cannot be combined - refused, no match - whatever the children are
+        L = lambda datum, fn, *a: ("leaf", {"datum": datum, "pre": "none", "fn": fn, "actuals": list(a), "akw": {}})   # noqa: E731
+        kids = list(node.values()) if isinstance(node, dict) else list(node)
+        scal = [k for k in kids if isinstance(k, (int, float, str, bool)) or k is None] or [0]
+        vleaf = L("value", "equal_to", rng.choice(scal))
+        if isinstance(node, list):
+            stranger = L("key", rng.choice(["equal_to", "less_than"]), rng.randrange(len(node)))
+            own = {"index": L("index", "less_than", len(node)), "key": None}
+        else:
+            ks = [k for k in node if isinstance(k, int)] or [0]
+            stranger = L("index", "equal_to", rng.choice(ks))
+            own = {"key": L("key", "in_", list(node)[:3]) if all(isinstance(k, (str, int, float, bool)) or k is None for k in node) else None, "index": None}
+            if own["key"] is None:
+                own = {"key": L("key", "truthy"), "index": None}
+        c = (rng.choice(["or", "and", "xor"]), stranger, vleaf) if rng.random() < 0.5 else (rng.choice(["or", "and"]), vleaf, stranger)
+        return {"rk": "mol", "key": own["key"], "index": own["index"], "value": None, "cond": c, "label": None}
     rk = rng.choice(["map", "list", "mol"])
     if node is not None and rng.random() < 0.75:
         rk = rng.choice(["map", "mol"]) if isinstance(node, dict) else rng.choice(["list", "mol"])
